@@ -2,7 +2,7 @@
    (The "total covers the sum of users' weights" clause: see Props/C10sum.v.)  Statements only; proofs in
    Proofs/WeightProofs.v and Proofs/FarmProofs.v. *)
 From MD.Model Require Import Base Ownable Epoch PoolMath Types PoolManager FarmManager.
-From MD.Proofs Require Import WeightProofs FarmProofs.
+From MD.Proofs Require Import WeightProofs FarmProofs WeightGap.
 
 (* closed form: weight = max(floor(amount * m(d) / 10^18), amount), m(d) = floor(d^2 A/DEN) + floor(d B/DEN) + floor(C) *)
 Theorem C10_weight_formula : forall amount dur w,
@@ -37,6 +37,23 @@ Theorem C10_changes_take_effect_next_epoch : forall w s recv lp amount dur fill 
           if fill then latest_weight ws1 recv lp + wgt else ssub (latest_weight ws1 recv lp) wgt).
 Proof. exact update_weights_effective_next_epoch. Qed.
 
+(* "the total is at least the sum of users' weights": every change moves the contract total and the user's own weight by
+   the same amount, so the difference total - user (the weight of everybody else) is preserved EXCEPT when a subtraction
+   saturates at zero — which is exactly the class of the recorded finding F-sat (weights are not additive under flooring:
+   closing a position that was built or reduced in pieces subtracts one unit more than was ever added) *)
+Theorem C10_total_and_user_move_together_unless_a_subtraction_saturates : forall w s recv lp amount dur fill s',
+  recv <> FM ->
+  update_weights w s recv lp amount dur fill = Ok s' ->
+  exists ep wgt cw uw,
+    calculate_weight amount dur = Ok wgt /\
+    fm_weights s' = w_set (w_set (fm_weights s) (mkw FM lp (ep_id ep + 1)) cw) (mkw recv lp (ep_id ep + 1)) uw /\
+    let total := latest_weight (fm_weights s) FM lp in
+    let user := latest_weight (fm_weights s) recv lp in
+    (fill = true -> cw = total + wgt /\ uw = user + wgt) /\
+    (fill = false -> cw = ssub total wgt /\ uw = ssub user wgt) /\
+    ((fill = true \/ (wgt <= user /\ wgt <= total)) -> cw - uw = total - user).
+Proof. exact update_weights_gap. Qed.
+
 Example C10_year_multiplier : wmult SECONDS_IN_YEAR = 15999999999999999998.
 Proof. exact wmult_year. Qed.
 
@@ -47,3 +64,4 @@ Print Assumptions C10_weight_monotone_in_amount.
 Print Assumptions C10_weight_monotone_in_duration.
 Print Assumptions C10_changes_take_effect_next_epoch.
 Print Assumptions C10_year_multiplier.
+Print Assumptions C10_total_and_user_move_together_unless_a_subtraction_saturates.
